@@ -15,7 +15,7 @@ from ..sched.core import S, Sched
 
 ID = "C05"
 LEVEL = "exploration"
-RULE = ("Cases: FunctorMap with workers 1..3, chunk size 1..5, 1..3 calls on one instance (each consumed to exhaustion or by taking exactly len(data) results, zip/islice style), inputs of length 0..12 (shorter than the worker "
+RULE = ("Cases (a further part repeats them with items that are None, falsy values and empty containers and the identity as functor): FunctorMap with workers 1..3, chunk size 1..5, 1..3 calls on one instance (each consumed to exhaustion or by taking exactly len(data) results, zip/islice style), inputs of length 0..12 (shorter than the worker "
         "count included) as list / range / generator with drawn delays; mul_p_map with workers 1..3, length 0..10, 1..2 consecutive calls "
         "and a work-queue bound as on machines with 1..16 CPUs; the pipe behind each queue holds an unbounded number of items or (large payloads) only 1..2 undelivered items. pools.Queue and FunRunner.WORK_QUEUE/RESULTS_QUEUE are pipe-queue "
         "stand-ins (per-producer in-flight FIFO, delivery a scheduler step), worker processes are scheduler tasks on fork copies, the "
@@ -38,8 +38,7 @@ def shard_setup(shard, nshards):
     PC.pin_shard(shard, nshards)
 
 
-def f(x):
-    return [x, 2 * x + 1]
+f = PC.P.f
 
 
 class RecPipe(prims.SimPipeQueue):
@@ -79,7 +78,7 @@ def run_sim(case):
     slow = {int(k): v for k, v in (case.get("slow") or {}).items()}
 
     def pf(x):
-        if x % 1000 in slow:
+        if type(x) is int and x % 1000 in slow:
             S().sleep(slow[x % 1000], "slow-item")
         return f(x)
 
@@ -143,7 +142,7 @@ def verdicts(case, r):
         exp = PC.P.expected_for(call, ci)
         complete = ci < len(r.leftovers)
         if complete and got != exp:
-            out.append(("%s/%s" % (name, PC.P.classify_diff(got, exp, ci)), "call %d (n=%d chunk=%d workers=%d) gave %r expected %r"
+            out.append(("%s/%s" % (name, "wrong-results-for-none-or-falsy-items" if "vals" in call else PC.P.classify_diff(got, exp, ci)), "call %d (n=%d chunk=%d workers=%d) gave %r expected %r"
                         % (ci, call["n"], call.get("chunk", 1), case["workers"], PC.P.short(got), PC.P.short(exp))))
         if complete and r.leftovers[ci]:
             out.append(("%s/item-left-in-queue-after-call" % name, "after call %d: %r" % (ci, PC.P.short(r.leftovers[ci]))))
@@ -170,7 +169,7 @@ def run_case(case, ctx):
     if res_q is not None:
         per = {}
         for it in res_q.got:
-            if isinstance(it, (tuple, list)) and it[1]:
+            if isinstance(it, (tuple, list)) and it[1] and type(it[1][0]) is list and len(it[1][0]) == 2 and type(it[1][0][0]) is int:
                 first = it[1][0]
                 per.setdefault(first[0] // 1000, []).append(it[0])
         if any(v != sorted(v) for v in per.values()):
@@ -289,4 +288,5 @@ def strategies(tier):
                                   "sched": schedules.strategy()})
     n = 250000 if big else 4000
     return [("functormap", fmap, 2 * n // 3), ("mul_p_map", mulp, n // 3),
+            ("none-and-falsy-items", st.one_of(fmap, mulp).map(PC.with_special_items), n // 8),
             ("real-processes", PC.real_strategy(st.one_of(fmap, mulp)), 300 if big else 14, {"shrink": False})]
